@@ -155,6 +155,9 @@ class Typestate:
                 return self.q(e.args[0], env) if e.args else Q
             if name in ("int", "len", "round"):
                 return I
+            if name.split(".")[-1] == "timedelta" and all(isinstance(a, ast.Constant) and a.value == 0 for a in e.args) \
+                    and all(isinstance(k.value, ast.Constant) and k.value.value == 0 for k in e.keywords):
+                return P  # the zero duration is a whole number (0) of sampling periods
             return Q
         if isinstance(e, ast.BinOp):
             l, r = self.q(e.left, env), self.q(e.right, env)
@@ -1281,6 +1284,12 @@ def check_count(run: Run, prog: Program) -> None:  # noqa: C901
             secs = lambda x: isinstance(x, ast.Call) and isinstance(x.func, ast.Attribute) \
                 and x.func.attr == "total_seconds" and not x.args  # noqa: E731
             if secs(num) and secs(den):
+                # the same quotient, but floored on floats: 0.3 // 0.1 == 2.0 (finding F14)
+                run.violation("C09.COUNT", cc.qual, "count_covered floors a float quotient of seconds",
+                              f"`{u(p.ret)[:90]}` floors the quotient of two float second counts: 0.3 // 0.1 == 2.0, so with a "
+                              "100 ms sampling period three consecutive valid samples are reported as 2 covered slots and "
+                              "every index query (window(0, 3), window(None, None), MovingWindow[...]) drops the newest value; "
+                              "durations divide exactly as timedeltas (`covered // period`)", **_where(cc, p))
                 num, den = num.func.value, den.func.value  # type: ignore[union-attr]
             some = truth(p, "self.oldest_timestamp")
             if some is None and none_test(p, "self.oldest_timestamp") is not None:
